@@ -12,6 +12,14 @@ import tempfile
 import time
 
 ROOT = os.path.dirname(os.path.dirname(os.path.abspath(__file__)))
+
+
+def _pypath():
+    """PYTHONPATH of the shard / replay processes.  VT_REPO (development only: tools/mutrun_wt.sh) names a scratch checkout of
+    circus to analyse instead of /repo; unset in every registered command."""
+    alt = os.environ.get('VT_REPO')
+    return ROOT + (os.pathsep + alt if alt else '')
+
 PY = sys.executable
 NPROC = int(os.environ.get('VT_JOBS', '0')) or min(16, os.cpu_count() or 4)
 
@@ -95,7 +103,7 @@ def run_pool(jobs, workdir, progress=None):
     pending = list(jobs)
     running = []
     n = 0
-    env = dict(os.environ, PYTHONPATH=ROOT, PYTHONDONTWRITEBYTECODE='1', CIRCUS_VERIF='1',
+    env = dict(os.environ, PYTHONPATH=_pypath(), PYTHONDONTWRITEBYTECODE='1', CIRCUS_VERIF='1',
                PYTHONHASHSEED='0')
     while pending or running:
         while pending and len(running) < NPROC:
@@ -462,7 +470,7 @@ def replay_file(path):
     out = tempfile.mktemp(suffix='.json')
     cmd = [PY, '-m', 'vtlib.replay', '--module', rp['module'], '--fn', rp['fn'], '--shard',
            json.dumps(rp['shard']), '--args', json.dumps(rp['args']), '--out', out]
-    env = dict(os.environ, PYTHONPATH=ROOT, CIRCUS_VERIF='1')
+    env = dict(os.environ, PYTHONPATH=_pypath(), CIRCUS_VERIF='1')
     subprocess.call(cmd, cwd=ROOT, env=env)
     with open(out) as f:
         res = json.load(f)
